@@ -1,0 +1,31 @@
+//go:build verif
+
+package capability
+
+// Contracts for the verif build tag (comment-only; see /verif/DESIGN.md).
+
+// Safety sweep (C17): decoding a peer's capability list never panics; every capability type byte,
+// known or not, gets a decoder.
+//@ prop C17
+//@ import io github.com/nspcc-dev/neo-go/pkg/io
+//@ func (*Capability).DecodeBinary
+//@ requires c != nil && io.validR(br)
+//@ opt frame off
+//@ func (*Node).DecodeBinary
+//@ requires n != nil && io.validR(br)
+//@ opt frame off
+//@ func (*Server).DecodeBinary
+//@ requires s != nil && io.validR(br)
+//@ opt frame off
+//@ func (*Archival).DecodeBinary
+//@ requires a != nil && io.validR(br)
+//@ opt frame off
+//@ func (*DisableCompression).DecodeBinary
+//@ requires d != nil && io.validR(br)
+//@ opt frame off
+//@ func (*Unknown).DecodeBinary
+//@ requires u != nil && io.validR(br)
+//@ opt frame off
+//@ func (*Capabilities).DecodeBinary
+//@ requires cs != nil && io.validR(br)
+//@ opt frame off
